@@ -29,6 +29,7 @@ const (
 	aBool
 	aFloat
 	aNil
+	aPtr // a non-nil pointer with identity i
 )
 
 type absVal struct {
@@ -52,8 +53,8 @@ func (a absVal) String() string {
 	return "?"
 }
 
-func intVal(i int64) absVal   { return absVal{k: aInt, i: i} }
-func boolVal(b bool) absVal   { return absVal{k: aBool, b: b} }
+func intVal(i int64) absVal     { return absVal{k: aInt, i: i} }
+func boolVal(b bool) absVal     { return absVal{k: aBool, b: b} }
 func floatVal(f float64) absVal { return absVal{k: aFloat, f: f} }
 
 type symVal struct {
@@ -80,13 +81,14 @@ type storeRec struct {
 }
 
 type pathOutcome struct {
-	conds  []condTaken
-	calls  []callRec
-	stores []storeRec
-	seq    []int // program order of effects: +k = calls[k-1], -k = stores[k-1]
-	ret    []symVal
-	end    string // return | stop | panic | loop
-	endPos token.Pos
+	conds    []condTaken
+	calls    []callRec
+	stores   []storeRec
+	seq      []int             // program order of effects: +k = calls[k-1], -k = stores[k-1]
+	backedge map[string]symVal // for end=="loop": header phi name -> value carried by the back edge
+	ret      []symVal
+	end      string // return | stop | panic | loop
+	endPos   token.Pos
 }
 
 func (p *pathOutcome) called(name string) bool {
@@ -114,6 +116,7 @@ type explorer struct {
 	c        *Ctx
 	f        *ssa.Function
 	atoms    map[string]absVal
+	atomFn   func(expr string) (absVal, bool) // pattern atoms (consulted after the exact map)
 	stop     func(*ssa.BasicBlock) bool
 	maxPaths int
 	out      []*pathOutcome
@@ -123,13 +126,21 @@ type explorer struct {
 type exState struct {
 	env    map[ssa.Value]symVal
 	onPath map[*ssa.BasicBlock]bool
+	mem    map[string]symVal // store-to-load forwarding: location -> last stored value on this path
+	dead   map[string]bool   // locations written on this path whose value is no longer known (atoms do not apply)
 	po     pathOutcome
 }
 
 func (st *exState) clone() *exState {
-	n := &exState{env: make(map[ssa.Value]symVal, len(st.env)), onPath: make(map[*ssa.BasicBlock]bool, len(st.onPath))}
+	n := &exState{env: make(map[ssa.Value]symVal, len(st.env)), onPath: make(map[*ssa.BasicBlock]bool, len(st.onPath)), mem: map[string]symVal{}, dead: map[string]bool{}}
 	for k, v := range st.env {
 		n.env[k] = v
+	}
+	for k, v := range st.mem {
+		n.mem[k] = v
+	}
+	for k, v := range st.dead {
+		n.dead[k] = v
 	}
 	for k, v := range st.onPath {
 		n.onPath[k] = v
@@ -146,7 +157,7 @@ func (e *explorer) explore(from *ssa.BasicBlock) []*pathOutcome {
 	if from == nil {
 		from = e.f.Blocks[0]
 	}
-	st := &exState{env: map[ssa.Value]symVal{}, onPath: map[*ssa.BasicBlock]bool{}}
+	st := &exState{env: map[ssa.Value]symVal{}, onPath: map[*ssa.BasicBlock]bool{}, mem: map[string]symVal{}, dead: map[string]bool{}}
 	e.walk(st, from, nil)
 	return e.out
 }
@@ -167,6 +178,27 @@ func (e *explorer) walk(st *exState, b, pred *ssa.BasicBlock) {
 			return
 		}
 		if st.onPath[b] {
+			// loop re-entry: summarise what the back edge feeds into the header phis
+			if pred != nil {
+				st.po.backedge = map[string]symVal{}
+				idx := -1
+				for i, p := range b.Preds {
+					if p == pred {
+						idx = i
+					}
+				}
+				for _, in := range b.Instrs {
+					phi, ok := in.(*ssa.Phi)
+					if !ok {
+						break
+					}
+					name := phi.Comment
+					if name == "" {
+						name = phi.Name()
+					}
+					st.po.backedge[name] = e.val(st, phi.Edges[idx])
+				}
+			}
 			e.finish(st, "loop", token.NoPos)
 			return
 		}
@@ -230,8 +262,11 @@ func (e *explorer) walk(st *exState, b, pred *ssa.BasicBlock) {
 				e.finish(st, "panic", in.Pos())
 				return
 			case *ssa.Store:
-				st.po.stores = append(st.po.stores, storeRec{addr: e.addrExpr(st, in.Addr), val: e.val(st, in.Val), pos: in.Pos()})
+				sr := storeRec{addr: e.addrExpr(st, in.Addr), val: e.val(st, in.Val), pos: in.Pos()}
+				st.po.stores = append(st.po.stores, sr)
 				st.po.seq = append(st.po.seq, -len(st.po.stores))
+				st.mem[sr.addr] = sr.val
+				delete(st.dead, sr.addr)
 			case ssa.CallInstruction:
 				cr := callRec{callee: calleeName(e.c, in), instr: in}
 				if cr.callee == "" {
@@ -242,6 +277,7 @@ func (e *explorer) walk(st *exState, b, pred *ssa.BasicBlock) {
 				}
 				st.po.calls = append(st.po.calls, cr)
 				st.po.seq = append(st.po.seq, len(st.po.calls))
+				e.invalidate(st, in)
 				if v, ok := in.(ssa.Value); ok {
 					st.env[v] = e.evalCall(st, v.(*ssa.Call), cr)
 				}
@@ -322,8 +358,45 @@ func constSym(k *ssa.Const) symVal {
 func (e *explorer) atom(s symVal) symVal {
 	if a, ok := e.atoms[s.expr]; ok {
 		s.abs = a
+	} else if e.atomFn != nil {
+		if a, ok := e.atomFn(s.expr); ok {
+			s.abs = a
+		}
 	}
 	return s
+}
+
+// invalidate forgets forwarded stores the callee may overwrite (by field name, via mod summaries); the
+// locations become "dead": later loads are unknown, never the stale atom.
+func (e *explorer) invalidate(st *exState, ci ssa.CallInstruction) {
+	if len(st.mem) == 0 {
+		return
+	}
+	var mods map[string]bool
+	all := false
+	if sc := ci.Common().StaticCallee(); sc != nil {
+		if sc.Blocks == nil || !e.c.inRepo(sc) {
+			return // external functions (math, decimal, fmt ...) do not write our fields; builtins handled as no-ops
+		}
+		mods = e.c.modSet(sc)
+	} else if _, isBuiltin := ci.Common().Value.(*ssa.Builtin); isBuiltin {
+		return
+	} else {
+		all = true
+	}
+	for loc := range st.mem {
+		f := loc
+		if i := strings.LastIndexAny(loc, ".]"); i >= 0 {
+			f = loc[i+1:]
+			if loc[i] == ']' {
+				f = "[]"
+			}
+		}
+		if all || mods[f] || mods["*"] {
+			delete(st.mem, loc)
+			st.dead[loc] = true
+		}
+	}
 }
 
 func fieldName(t types.Type, idx int) string {
@@ -370,7 +443,14 @@ func (e *explorer) eval(st *exState, v ssa.Value) symVal {
 	case *ssa.UnOp:
 		switch v.Op {
 		case token.MUL: // load
-			return e.atom(symVal{expr: e.addrExpr(st, v.X)})
+			loc := e.addrExpr(st, v.X)
+			if m, ok := st.mem[loc]; ok {
+				return symVal{abs: m.abs, expr: loc}
+			}
+			if st.dead[loc] {
+				return symVal{expr: loc}
+			}
+			return e.atom(symVal{expr: loc})
 		case token.NOT:
 			x := e.val(st, v.X)
 			r := symVal{expr: "!" + x.expr}
@@ -576,12 +656,13 @@ func foldAbs(op token.Token, x, y absVal) absVal {
 		case token.OR, token.LOR:
 			return boolVal(x.b || y.b)
 		}
-	case x.k == aNil && y.k == aNil:
+	case (x.k == aNil || x.k == aPtr) && (y.k == aNil || y.k == aPtr):
+		eq := x.k == y.k && (x.k == aNil || x.i == y.i)
 		switch op {
 		case token.EQL:
-			return boolVal(true)
+			return boolVal(eq)
 		case token.NEQ:
-			return boolVal(false)
+			return boolVal(!eq)
 		}
 	}
 	return absVal{}
